@@ -184,12 +184,32 @@ pub fn run(tier: Tier, seed: u64) -> i32 {
                     perm: [rand_scalar(&mut rng), rand_scalar(&mut rng), rand_scalar(&mut rng)],
                     quotient: [rand_scalar(&mut rng), rand_scalar(&mut rng), rand_scalar(&mut rng)],
                 };
+                // identity wire commitment (zero polynomial) with that wire's evaluation solved:
+                // the opening at z must still bind the evaluation to the identity commitment
+                if !big_s3 {
+                    for wire in 0..4usize {
+                        for ver in [Version::V3, Version::V2, Version::V1] {
+                            let Some(built) = rp::prove_full(&key, &srs.powers, &vk, &wires, &pi, &bl, ver, true, Some(wire), Some(wire)) else { continue };
+                            if built.solved != Some(true) {
+                                ev.bucket("S3.not-affine-or-unsolvable");
+                                continue;
+                            }
+                            let (acc, _) = judge.triple("S3-identity-commitment-solved-evaluation", Some(&compiled.verifier), &vbytes, &built.proof, &pi, ver,
+                                json!({"falsifier": FALSIFIERS[kind], "wire": (["a", "b", "c", "d"][wire]), "rows": total_rows, "ci": ci}));
+                            ev.bucket("forged.S3-identity-commitment");
+                            if acc {
+                                ev.violation(&format!("C02:false-statement-accepted:S3-identity-commitment:{}:{ver:?}", ["a", "b", "c", "d"][wire]),
+                                    json!({"ops": prog.tags(), "proof": hex::encode(&built.proof), "pi": crate::util::hxs(&pi)}));
+                            }
+                        }
+                    }
+                }
                 for k in 0..15usize {
                     if big_s3 && !(7..=10).contains(&k) {
                         continue;
                     }
                     for ver in [Version::V3, Version::V1] {
-                        let Some(built) = rp::prove_full(&key, &srs.powers, &vk, &wires, &pi, &bl, ver, true, Some(k)) else { continue };
+                        let Some(built) = rp::prove_full(&key, &srs.powers, &vk, &wires, &pi, &bl, ver, true, Some(k), None) else { continue };
                         if built.solved != Some(true) {
                             ev.bucket("S3.not-affine-or-unsolvable");
                             continue;
@@ -336,6 +356,7 @@ pub fn run(tier: Tier, seed: u64) -> i32 {
     ev.floor("S4 splices", ev.bucket_get("forged.S4-splice"), tier.pick(300, 2000));
     ev.floor("S3 solved-evaluation forgeries", ev.bucket_get("forged.S3-solved-evaluation"), tier.pick(100, 1000));
     ev.floor("S3 evaluations that could be solved", ev.set_len("S3_evaluations_solved") as u64, 8);
+    ev.floor("S3 identity-commitment forgeries", ev.bucket_get("forged.S3-identity-commitment"), tier.pick(30, 300));
     ev.floor("S5 degenerate", ev.bucket_get("forged.S5-degenerate"), tier.pick(100, 500));
     if ev.bucket_get("real.accept") > 0 && ev.violations() == 0 && ev.known_hits() == 0 {
         ev.inconclusive("a forged proof was accepted but not reported");
